@@ -1,28 +1,45 @@
 ------------------------------ MODULE DagUniverse ------------------------------
 (* The finite universe of directory trees used by phase M and by the case generator.
-   DirIds = data ids a directory may carry (its own Data: plain, or with metadata), LeafIds = leaf
-   payloads.  A directory of ANY DirId may be empty or populated, at the root or nested.
+   A node's LABEL (the value of the flat tree at its path) is the pair <<payload id, CID builder id>>:
+   a node's identity is its CID, and the CID is determined by the node's bytes (payload + links)
+   AND by the CID builder it was made with (CID version, hash function).  Two nodes with the same
+   payload and the same entries but another builder are DIFFERENT nodes (another CID), and so is
+   every ancestor of them.  Tree equality is equality of the labelled trees = equality of root CIDs.
+   DirIds = payload ids a directory may carry (its own Data: plain, or with metadata), LeafIds = leaf
+   payloads, Builders = CID builder ids.  A directory of ANY DirId and ANY builder may be empty or
+   populated, at the root or nested; a leaf may have any builder.
    The universe can be cut into NShards slices of source trees (Shard = which one) so that a tier
    that cannot afford all pairs takes a seed-chosen slice; NShards = 1 is the whole universe. *)
 EXTENDS DagTrees, SequencesExt
-CONSTANTS Names, LeafIds, DirIds, MaxDepth, NShards, Shard
+CONSTANTS Names, LeafIds, DirIds, Builders, MaxDepth, NShards, Shard
 
 RECURSIVE PathsUpTo(_)
 PathsUpTo(n) == IF n = 0 THEN {<<>>} ELSE PathsUpTo(n - 1) \cup {Append(p, x) : p \in {q \in PathsUpTo(n - 1) : Len(q) = n - 1}, x \in Names}
 Paths == PathsUpTo(MaxDepth)
-Data == DirIds \cup LeafIds
-DirTrees == {T \in UNION {[S -> Data] : S \in SUBSET Paths} : IsDirTree(T, DirIds)}
-\* subtrees that fit at a path of length n: any root data, directory-shaped below
-SubTreesAt(n) == {T \in UNION {[S -> Data] : S \in SUBSET PathsUpTo(MaxDepth - n)} : IsTree(T) /\ DirShaped(T, DirIds)}
+DirData == DirIds \X Builders                       \* labels of directories
+Data == (DirIds \cup LeafIds) \X Builders             \* all labels
+\* all trees that fit at a path of length n (any root label, directory-shaped below), built level by level:
+\* a single node of any label, or a directory label with, per name, no entry or a tree that fits one level deeper
+Join(l, f) == LET dom == {<<>>} \cup UNION {{<<x>> \o q : q \in DOMAIN f[x]} : x \in Names}
+              IN  [p \in dom |-> IF p = <<>> THEN l ELSE f[p[1]][Tail(p)]]
+RECURSIVE SubTreesAt(_)
+SubTreesAt(n) == {[p \in {<<>>} |-> l] : l \in Data} \cup
+                 (IF n >= MaxDepth THEN {}
+                  ELSE {Join(l, f) : l \in DirData, f \in [Names -> SubTreesAt(n + 1) \cup {NoTree}]})
 \* evaluated once (TLC caches constant definitions without parameters)
 SubTreesTab == [n \in 0..MaxDepth |-> SubTreesAt(n)]
-Slots(T) == {p \in Paths : p # <<>> /\ Parent(p) \in DOMAIN T /\ T[Parent(p)] \in DirIds}
-\* one edit: remove an entry; put any leaf / empty directory / directory subtree (of any directory data) at a
-\* free or occupied slot; change the own data of a directory -- the ROOT included -- keeping its entries
+DirTrees == {T \in SubTreesTab[0] : T[<<>>] \in DirData}
+Slots(T) == {p \in Paths : p # <<>> /\ Parent(p) \in DOMAIN T /\ T[Parent(p)] \in DirData}
+\* one edit: remove an entry; put any leaf / empty directory / directory subtree (of any directory label) at a
+\* free or occupied slot -- which includes replacing a link-less node by one with the SAME payload and another
+\* CID builder; change the own label (payload, CID builder or both) of a directory -- the ROOT included --
+\* keeping its entries
 Edits(T) == {Prune(T, p) : p \in DOMAIN T \ {<<>>}} \cup
             UNION {{Graft(T, p, S) : S \in SubTreesTab[Len(p)]} : p \in Slots(T)} \cup
-            UNION {{SetData(T, p, d) : d \in DirIds \ {T[p]}} : p \in {q \in DOMAIN T : T[q] \in DirIds}}
+            UNION {{SetData(T, p, d) : d \in DirData \ {T[p]}} : p \in {q \in DOMAIN T : T[q] \in DirData}}
 \* the slice of source trees (TLC's SetToSeq order is deterministic)
 Sources == IF NShards = 1 THEN DirTrees
            ELSE LET s == SetToSeq(DirTrees) IN {s[i] : i \in {j \in 1..Len(s) : j % NShards = Shard}}
+\* the declarative definition (what the construction above must yield); checked by hand on the small universes
+DirTreesDecl == {T \in UNION {[S -> Data] : S \in SUBSET Paths} : IsDirTree(T, DirData)}
 =============================================================================
